@@ -80,6 +80,13 @@ CLAIMS = {
          "from_real = id; imaginary = 0; argument = 0 or pi by the sign of the real part; atan2); max/min/clamp return one of their operands, copysign +-abs, is_sign_* read the real part. Combined with C01/C03 these give the derivative "
          "semantics. The implementation is called through nalgebra's traits on six types: constants against the f64 constants of the same Rust build, methods bit for bit against the generic operation and against the same method on plain floats "
          "in the real part, single-lane SIMD splat/extract/replace/select round trips (tested, not modelled: SimdValue impls are untranslated)."),
+ 'C05': ("Coq proof on a hand-written model of the twenty drivers (its seeding helpers are the translated ones): seeds are unit directions, results are read off the right parts in the right orientation, try_ propagates errors; model executed in Coq on closures that exist on both sides",
+         "Hand model coq/ND/Hand/Drivers.v (lists for vectors; from_re / derivative / Derivative::derivative_generic / unwrap_generic are the translated definitions). Theorems (Props/C05.v, 13): for every input length, the i-th argument handed "
+         "to the closure has real part x_i and derivative part delta_ij in direction j and nothing else (gradient/jacobian, hessian, both halves of partial_hessian, third_partial_derivative_vec for every index triple incl. repeated indices, "
+         "the scalar drivers); gradient[i], jacobian[(i,j)] (any output length), the hessian gradient and matrix [(i,j)], partial_hessian [(i,j)] are exactly the parts [i], [j] of output i, [i;j], [inl i; inr j] of the closure's result "
+         "(absent parts read as zero); for an arbitrary scalar instance a closure error is returned unchanged and every infallible variant equals its try_ variant on the Ok-wrapped closure. With C01-C03 on the closure this gives the "
+         "named partial derivatives. The model is evaluated in Coq on binary64 on asymmetric cubic closures written on both sides and compared bit for bit with the implementation (all twenty drivers, n in 0..6, m in 1..6, static and "
+         "dynamic, distinct error codes), and the implementation exactly against sympy partial derivatives. Partial: the drivers themselves are not translated (nalgebra vector plumbing), the tie is the correspondence."),
 }
 props = [json.loads(l) for l in open('/verif/properties.jsonl')]
 checks = []
